@@ -312,6 +312,9 @@ func ruleORD(c *Ctx) []Obligation {
 				if i := strings.LastIndex(via, "."); i >= 0 && derivedHelpers[via[i+1:]] {
 					continue
 				}
+				if e.Derived {
+					continue // … at any depth (a section helper that starts with inst.Type())
+				}
 			}
 			if seen[e.Field] {
 				continue
@@ -364,6 +367,7 @@ func (c *Ctx) ordFuncProductions() []Obligation {
 	if fd == nil {
 		return []Obligation{{Key: "ir.Func productions", Verdict: UNDECIDED, Detail: "(*ir.Func).LLString not found"}}
 	}
+	fd, fn = c.printerDecl(fn)
 	info := c.pkg(pkgIR).TypesInfo
 	events := c.subjectFields(fn, -1)
 	// a helper that receives the function is the body printer if it reads Blocks, otherwise it prints header parts
@@ -567,6 +571,57 @@ var opcException = map[string]string{"VAArg": "va_arg", "CondBr": "br"}
 
 var wordRE = regexp.MustCompile(`[a-z_][a-z_0-9]*`)
 
+// firstKeywordInHelpers: the first keyword literal printed by the helpers of the module that fd
+// calls (in source order), for printers whose own body holds no keyword.
+func (c *Ctx) firstKeywordInHelpers(fd *ast.FuncDecl, depth int) (string, token.Pos) {
+	if fd == nil || fd.Body == nil || depth > 2 {
+		return "", token.NoPos
+	}
+	info := c.declPkg[fd].TypesInfo
+	got, gotPos := "", token.NoPos
+	ast.Inspect(fd.Body, func(n ast.Node) bool {
+		if got != "" {
+			return false
+		}
+		call, ok := n.(*ast.CallExpr)
+		if !ok {
+			return true
+		}
+		callee := calleeOf(info, call)
+		if callee == nil || callee.Pkg() == nil || !c.isLLVM(callee.Pkg().Path()) || derivedHelpers[callee.Name()] {
+			return true
+		}
+		switch callee.Name() {
+		case "Ident", "String", "LLString", "Name", "ID":
+			return true
+		}
+		hfd := c.funcDecl(callee)
+		if hfd == nil || hfd.Body == nil || hfd == fd {
+			return true
+		}
+		hi := c.declPkg[hfd].TypesInfo
+		ast.Inspect(hfd.Body, func(m ast.Node) bool {
+			if got != "" {
+				return false
+			}
+			if lit, ok := m.(*ast.BasicLit); ok && lit.Kind == token.STRING {
+				if tv := hi.Types[lit]; tv.Value != nil {
+					s := regexp.MustCompile(`%[-+# 0-9.]*[a-zA-Z]`).ReplaceAllString(constant.StringVal(tv.Value), " ")
+					if w := wordRE.FindString(s); w != "" {
+						got, gotPos = w, lit.Pos()
+					}
+				}
+			}
+			return true
+		})
+		if got == "" {
+			got, gotPos = c.firstKeywordInHelpers(hfd, depth+1)
+		}
+		return true
+	})
+	return got, gotPos
+}
+
 func ruleOPC(c *Ctx) []Obligation {
 	var obs []Obligation
 	for _, pt := range c.printedTypes() {
@@ -615,6 +670,11 @@ func ruleOPC(c *Ctx) []Obligation {
 			}
 			return true
 		})
+		if got == "" {
+			// the printer is split into section helpers / delegates to a helper: the first keyword
+			// the helpers print, in call order
+			got, gotPos = c.firstKeywordInHelpers(fd, 0)
+		}
 		o := Obligation{Key: typeKey(pt.n) + " opcode", Pos: c.pos(gotPos), Verdict: OK, Detail: fmt.Sprintf("%q", got), Tags: irTags(pt.n)}
 		if got == "" {
 			o.Verdict, o.Detail, o.Pos = UNDECIDED, "no keyword literal found in "+root.Name(), c.pos(fd.Pos())
